@@ -102,7 +102,149 @@ def parseDatum (n : Nat) (s : String) : Option (List Row × Bool) :=
   match s.splitOn ":" with
   | ["a", _off, rows] => (parseRows rows).map (fun r => (r, false))
   | ["s", row] => (parseRow row).map (fun r => (List.replicate n r, true))
+  | ["s", row, _off] => (parseRow row).map (fun r => (List.replicate n r, true))
   | _ => none
+
+
+/-! ### physical observables -/
+
+def parseBArr (s : String) : Option BArr :=
+  match s.splitOn "/" with
+  | [o, d, n] =>
+    match parseList (fun x => x.toNat?) o, parseHex d, (if n = "-" then some none else (parseBits n).map some) with
+    | some o, some d, some n => some { offsets := o, data := d, nulls := n }
+    | _, _, _ => none
+  | _ => none
+
+/-- validity is reported as `-` when there is no null -/
+def showNulls (n : Option (List Bool)) : String :=
+  match n with
+  | some b => if b.all id then "-" else showBits b
+  | none => "-"
+
+def showBArr (b : BArr) : String :=
+  s!"o={showList toString b.offsets} d={toHex b.data} n={showNulls b.nulls}"
+
+def showCell : Option (List Nat) → String
+  | none => "n"
+  | some b => toHex b
+
+/-- zero the value bytes under null slots of a fixed-size-binary buffer -/
+def fsbCanon (w : Nat) (d : List Nat) (n : Option (List Bool)) : List Nat :=
+  match n with
+  | none => d
+  | some bs => ((List.range bs.length).map (fun i => if bs.getD i true then fsbSlot w d i else List.replicate w 0)).flatten
+
+def fsbDecode (w : Nat) (d : List Nat) (cnt : Nat) (n : Option (List Bool)) : List (Option (List Nat)) :=
+  (List.range cnt).map (fun i => if (n.map (·.getD i true)).getD true then some (fsbSlot w d i) else none)
+
+/-- logical content of a run-end encoded array -/
+def reeExpand (ends : List Nat) (vals : List Row) (offset len : Nat) : List Row :=
+  (List.range len).map (fun i => (vals[physIndex ends offset i]?).getD none)
+
+def handlePhys (toks : List String) : String :=
+  match toks with
+  | ["bfilter", _wide, _var, tok, _moff, mask] =>
+    match parseBArr tok, parseMask mask with
+    | some b, some mask =>
+      let spec := if mask.length > b.len then "ERR:arg" else showList showCell (filterSpec b.decode mask)
+      let results := heuristics.flatMap (fun h => [filterBytesKernel h false b mask, filterBytesKernel h true b mask])
+      let logical := results.map (fun r => match r with | some x => showList showCell x.decode | none => "ERR:arg")
+      match logical.find? (· ≠ spec) with
+      | some m => mismatch "bfilter" m spec
+      | none =>
+        let phys := results.map (fun r => match r with | some x => showBArr x | none => "ERR:arg")
+        match phys with
+        | p0 :: _ => if phys.all (· = p0) then p0 else mismatch "bfilter-phys" (" / ".intercalate phys) p0
+        | [] => "bad-op"
+    | _, _ => "bad-op"
+  | ["btake", _wide, _ity, tok, _ioff, idx] =>
+    match parseBArr tok, parseIdx idx with
+    | some b, some ix =>
+      let spec := match takeSpec b.decode (idxLogical ix) with | some r => showList showCell r | none => "PANIC"
+      let results := (idxArrs ix).map (fun ia => takeBytes b ia)
+      let logical := results.map (fun r => match r with | some x => showList showCell x.decode | none => "PANIC")
+      match logical.find? (· ≠ spec) with
+      | some m => mismatch "btake" m spec
+      | none =>
+        match results with
+        | some x :: _ => showBArr x
+        | _ => "PANIC"
+    | _, _ => "bad-op"
+  | ["bconcat", _wide, toks] =>
+    match (toks.splitOn ";").mapM parseBArr with
+    | some arrs =>
+      let out := match arrs with
+        | [one] => one
+        | _ => concatBytes arrs
+      let spec := showList showCell (concatSpec (arrs.map BArr.decode))
+      if showList showCell out.decode ≠ spec then mismatch "bconcat" (showList showCell out.decode) spec
+      else showBArr out
+    | none => "bad-op"
+  | ["binterleave", _wide, toks, pairs] =>
+    match (toks.splitOn ";").mapM parseBArr, parsePairs pairs with
+    | some arrs, some pairs =>
+      let spec := match interleaveSpec (arrs.map BArr.decode) pairs with | some r => showList showCell r | none => "PANIC"
+      match interleaveBytes arrs pairs with
+      | some out => if showList showCell out.decode ≠ spec then mismatch "binterleave" (showList showCell out.decode) spec else showBArr out
+      | none => if spec = "PANIC" then "PANIC" else mismatch "binterleave" "PANIC" spec
+    | _, _ => "bad-op"
+  | ["fsbfilter", w, _var, d, n, _moff, mask] =>
+    match w.toNat?, parseHex d, (if n = "-" then some none else (parseBits n).map some), parseMask mask with
+    | some w, some d, some n, some mask =>
+      let len := d.length / w
+      if mask.length > len then "ERR:arg" else
+      let spec := showList showCell (filterSpec (fsbDecode w d len n) mask)
+      let outs := heuristics.flatMap (fun h => [false, true].map (fun opt =>
+        let pr := Predicate.new h mask
+        let p := if opt then pr.optimize else pr
+        match p.strategy with
+        | .none => (([] : List Nat), (none : Option (List Bool)), 0)
+        | .all => (d.take (p.count * w), n.map (fun (x : List Bool) => x.take p.count), p.count)
+        | _ => let r := filterFsb w d n p; (r.1, r.2, p.count)))
+      let shown := outs.map (fun o => s!"d={toHex (fsbCanon w o.1 o.2.1)} n={showNulls o.2.1}")
+      let logical := outs.map (fun o => showList showCell (fsbDecode w o.1 o.2.2 o.2.1))
+      match logical.find? (· ≠ spec), shown with
+      | some m, _ => mismatch "fsbfilter" m spec
+      | none, s0 :: _ => if shown.all (· = s0) then s0 else mismatch "fsbfilter-phys" (" / ".intercalate shown) s0
+      | none, [] => "bad-op"
+    | _, _, _, _ => "bad-op"
+  | ["fsbtake", w, _ity, d, n, _ioff, idx] =>
+    match w.toNat?, parseHex d, (if n = "-" then some none else (parseBits n).map some), parseIdx idx with
+    | some w, some d, some n, some ix =>
+      let len := d.length / w
+      if ix.isEmpty then "d=- n=-" else
+      let spec := match takeSpec (fsbDecode w d len n) (idxLogical ix) with | some r => showList showCell r | none => "PANIC"
+      let outs := (idxArrs ix).map (fun ia => takeFsb w d len n ia)
+      let logical := outs.map (fun o => match o with | some r => showList showCell (fsbDecode w r.1 ix.length r.2) | none => "PANIC")
+      match logical.find? (· ≠ spec), outs with
+      | some m, _ => mismatch "fsbtake" m spec
+      | none, some r :: _ => s!"d={toHex (fsbCanon w r.1 r.2)} n={showNulls r.2}"
+      | none, _ => "PANIC"
+    | _, _, _, _ => "bad-op"
+  | ["ree", _var, ends, vals, off, len, _moff, mask] =>
+    match parseList (fun x => x.toNat?) ends, parseRows vals, off.toNat?, len.toNat?, parseMask mask with
+    | some ends, some vals, some off, some len, some mask =>
+      if mask.length > len then "ERR:arg" else
+      let input := reeExpand ends vals off len
+      let spec := showRows (filterSpec input mask)
+      let cnt := trueCount mask
+      if mask.length = 0 ∨ cnt = 0 then "ends=- vals=-"
+      else if cnt = mask.length then s!"ends={showList toString ends} vals={showRows vals}"
+      else
+        let outs := (mkArrs vals).flatMap (fun va => heuristics.map (fun h => filterRee h ends va off len (prepMask mask)))
+        let shown := outs.map (fun o => match o with
+          | some (e, v) => s!"ends={showList toString e} vals={showRows v.decode}"
+          | none => "ERR:arg")
+        let logical := outs.map (fun o => match o with
+          | some (e, v) => showRows (reeExpand e v.decode 0 cnt)
+          | none => "ERR:arg")
+        match logical.find? (· ≠ spec), shown with
+        | some m, _ => mismatch "ree" m spec
+        | none, s0 :: _ => if shown.all (· = s0) then s0 else mismatch "ree-phys" (" / ".intercalate shown) s0
+        | none, [] => "bad-op"
+    | _, _, _, _, _ => "bad-op"
+  | _ => "bad-op"
 
 /-! ### coalescer -/
 
@@ -224,9 +366,40 @@ def handle (toks : List String) : String :=
       match parseDatum mask.length t, parseDatum mask.length f with
       | some (t, ts), some (f, fs) =>
         if (!ts ∧ t.length ≠ mask.length) ∨ (!fs ∧ f.length ≠ mask.length) then "ERR:arg"
-        else showRows (zipSpec mask t f)
+        else
+          let spec := showRows (zipSpec mask t f)
+          -- `zip_impl` (operands as the kernel sees them: a scalar is one row)
+          let m1 := showRows (zipModel mask (if ts then t.take 1 else t) (ts && !mask.isEmpty) (if fs then f.take 1 else f) (fs && !mask.isEmpty))
+          -- `PrimitiveScalarImpl` when both are scalars
+          let m2 := if ts ∧ fs ∧ !mask.isEmpty then showRows (zipScalars mask (t.head!) (f.head!)).decode else spec
+          agree "zip" [m1, m2] spec
       | _, _ => "bad-op"
     | none => "bad-op"
+  | ["merge", _ty, _moff, mask, t, f] =>
+    match parseMask mask with
+    | some mask =>
+      match parseDatum mask.length t, parseDatum mask.length f with
+      | some (t, ts), some (f, fs) =>
+        match mergeSpec mask t f with
+        | some r =>
+          let m := if ts ∧ fs then showRows (zipSpec mask t f)
+                   else showRows (mergeModel mask (if ts then t.take 1 else t) (ts && !mask.isEmpty) (if fs then f.take 1 else f) (fs && !mask.isEmpty))
+          agree "merge" [m] (showRows r)
+        | none => "SKIP"
+      | _, _ => "bad-op"
+    | none => "bad-op"
+  | ["mergen", _ty, arrs, idx] =>
+    match splitArrs arrs, parseList (fun x => if x = "n" then some none else x.toNat?.map some) idx with
+    | some arrs, some idx =>
+      if arrs.isEmpty then "ERR:arg" else
+      match mergeNSpec arrs idx (List.replicate arrs.length 0) with
+      | some r =>
+        let m := match mergeNRun arrs (idx.length + 1) idx (List.replicate (arrs.length + 1) 0) with
+          | some x => showRows x
+          | none => "PANIC"
+        agree "mergen" [m] (showRows r)
+      | none => "SKIP"
+    | _, _ => "bad-op"
   | ["nullif", _ty, _off, rows, _moff, mask] =>
     match parseRows rows, parseMask mask with
     | some rows, some mask =>
@@ -243,6 +416,6 @@ def handle (toks : List String) : String :=
       agree "shift" models (showRows (shiftSpec rows k))
     | _, _ => "bad-op"
   | ["coalesce", ty, target, limit, ops] => handleCoalesce ty target limit ops
-  | _ => "bad-op"
+  | _ => handlePhys toks
 
 end ArrowModel.C03
